@@ -37,7 +37,7 @@ package crypto
 //@ func SHA3Sum256(m) (h)
 //@   trusted
 //@   pure
-//@   ensures seq(h) == sha3(seq(m)) && len(h) == 32 && h != nil
+//@   ensures seq(h) == sha3(seq(m)) && len(h) == 32 && h != nil && fresh(h)
 
 // C32: parsing and plain ECDSA verification, abstracted the same way
 //@ smt all (declare-fun pk_valid (BSeq) Bool)
